@@ -2,7 +2,8 @@ CONSTANTS
   MaxFrames = 2
   Lens = {3, 5}
   H = 3
+  Preface = 0
   Defects = {}
 SPECIFICATION Spec
-INVARIANTS InOrderOnce NoEarly Prompt Consumed NoError SameForEveryCut EmitCase
+INVARIANTS InOrderOnce NoEarly Prompt Consumed PrefaceOnce NoError SameForEveryCut EmitCase
 CHECK_DEADLOCK FALSE
